@@ -72,6 +72,15 @@ SPECS = [
                 "del self._buffer[:7]": "let buflen_ := Z.max 0 (Z.sub buflen_ 7)",
                 "response = bytearray(8)": "let response := 0"},
          skip_stmts=["response[0] = res_command", "response[1:1 + size] = data", "self.send_response(response)"]),
+    # IntegerN.pack / UnsignedN.pack: the range test that decides between struct.error and the sliced bytes
+    dict(module="canopen.objectdictionary.datatypes", qualname="IntegerN.pack", name="src_integerN_accepts",
+         params=[("v0", "Z"), ("width", "Z")], ret="bool", raise_value="false",
+         attrs={"self.width": "width"}, calls={"v[0]": "v0"},
+         stmts={"data = super().pack(*v)": "let data := 0"}, returns={"data[:self.size]": "true"}),
+    dict(module="canopen.objectdictionary.datatypes", qualname="UnsignedN.pack", name="src_unsignedN_accepts",
+         params=[("v0", "Z"), ("width", "Z")], ret="bool", raise_value="false",
+         attrs={"self.width": "width"}, calls={"v[0]": "v0"},
+         stmts={"data = super().pack(*v)": "let data := 0"}, returns={"data[:self.size]": "true"}),
 ]
 
 
